@@ -404,8 +404,8 @@ def editor_sequences(ctx, rec, d, lines, checks):
             if pr is not None:
                 rec.add(pr[0], pr[1] + " (same-name sequence)", {"part": "tmpl", "fn": "mdp", "template": t,
                                                                  "settings": {a: str(b) for a, b in s0.items()}}, len(t))
-        lines.append(f"mdpmodify {hexs(t)} {CT.sett_tokens(s0)}")
-        checks.append((hexs(got), {"fn": "_modify_input(same name)", "part": PART, "kind": "mdp-seq", "template": t}))
+        lines.append(f"mdpmodify {CT.hexs(t)} {CT.sett_tokens(s0)}")
+        checks.append((CT.hexs(got), {"fn": "_modify_input(same name)", "part": PART, "kind": "mdp-seq", "template": t}))
         # --- LAMMPS
         t2 = "".join(rng.choice(CT.LMP_LINES) for _ in range(rng.randint(0, 6)))
         s2 = {k: rng.choice(CT.LMP_VALS) for k in rng.sample(CT.LMP_KEYS, rng.randint(0, 4))}
@@ -434,8 +434,8 @@ def editor_sequences(ctx, rec, d, lines, checks):
         if got2 != want2 or again2 != want2 or text_of(P) != t2:
             rec.add("C19:state:write_for_run", "editing a rewritten template name / reusing the settings dict gives a different result, "
                     "or the template itself was changed", replay2, len(t2))
-        lines.append(f"wfr {hexs(t2)} {CT.sett_tokens(s20)}")
-        checks.append((f"{got2[0]} {hexs(got2[1] or '')}", {"fn": "write_for_run(same name)", "part": PART, "kind": "lmp-edit-seq", "template": t2}))
+        lines.append(f"wfr {CT.hexs(t2)} {CT.sett_tokens(s20)}")
+        checks.append((f"{got2[0]} {CT.hexs(got2[1] or '')}", {"fn": "write_for_run(same name)", "part": PART, "kind": "lmp-edit-seq", "template": t2}))
     # --- CP2K: same template name edited twice with different requests; output path == input path; dict purity
     tpls = ["&MOTION\n &MD\n  STEPS 10\n &END MD\n&END MOTION\n", "&A X\n K 1\n &B\n  V 2\n &END B\n&END A\n&G\n P q\n&END G\n", ""]
     upds = [{"MOTION->MD": {"data": {"STEPS": 0, "TIMESTEP": 0.0}}, "MOTION->PRINT->RESTART": {"data": {"BACKUP_COPIES": 0}}},
